@@ -43,7 +43,7 @@ def _worker(job):
             res = {'contract': key, 'target': c.target, 'status': 'assumed', 'obligations': [], 'notes': [c.trusted_note or ''],
                    'paths': 0, 'props': list(c.props)}
         else:
-            res = verify.verify_contract(c, reg, timeout_ms=timeout_ms, want_smt=want_smt, opaque=True, witnesses=witnesses)
+            res = verify.verify_contract(c, reg, timeout_ms=timeout_ms, want_smt=want_smt, opaque=c.use_opaque, witnesses=witnesses)
             need = res.get('status') == 'ok' and any(o.get('abstract') or (o['failed'] and res.get('opaque_specs')) or o['unknown']
                                                       for o in res['obligations']) and res.get('opaque_specs')
             if need:
